@@ -236,7 +236,64 @@ def run(ck):
             fails.append((i, f))
         if canon(oi) != canon(om):
             broken.append(i)
-    ck.cov["evaluations"] = len(cases)
+    # ---- histories on ONE grid: insertions and neighbourhood queries interleaved (a query, an insertion into the block it looked
+    # at, the same query again ...): every query returns every object stored SO FAR within one voxel size, nothing else, nothing twice
+    rng_h = random.Random(ck.seed * 104729 + 21); hcases = []
+    for _ in range(150 if ck.tier == "quick" else 3000):
+        s_ = 10 ** rng_h.uniform(-6, 2); nv = [rng_h.randint(1, 4) for _ in range(3)]
+        lo = [rng_h.choice([0.0, -3.0, 50.0]) * s_ for _ in range(3)]; hi = [lo[k] + nv[k] * s_ * rng_h.choice([1.0, 0.93]) for k in range(3)]
+        kind = rng_h.choice(["G4H", "G4H", "G3H"])
+        ops = []; anchor = [rng_h.uniform(lo[k], hi[k]) for k in range(3)]
+        for _k in range(rng_h.randint(4, 14)):
+            r_ = rng_h.random()
+            if r_ < 0.25:
+                anchor = [rng_h.uniform(lo[k], hi[k]) for k in range(3)]
+            near = [min(hi[k], max(lo[k], anchor[k] + rng_h.uniform(-0.9, 0.9) * s_)) for k in range(3)]
+            ops.append(("Q", tuple(anchor)) if r_ < 0.5 or r_ > 0.9 else ("P", tuple(near)))
+        ops.append(("Q", tuple(anchor)))
+        hcases.append(dict(kind=kind, s=s_, lo=lo, hi=hi, ops=ops,
+                           line="%s %s %s %s %d %s" % (kind, hx(s_), " ".join(hx(x) for x in lo), " ".join(hx(x) for x in hi), len(ops), " ".join("%s %s %s %s" % (o, hx(p[0]), hx(p[1]), hx(p[2])) for o, p in ops))))
+    hout, hcr = vlib.run_lines_resilient([impl], [c["line"] for c in hcases])
+    nh = 0; hfails = []
+    for c, o in zip(hcases, hout):
+        if o is None or not o.startswith("H"):
+            hfails.append(("memory_safety (a history of insertions and queries on one grid died)", c)); continue
+        nh += 1
+        toks = o.split(); i = 1; placed = {}; voxel_of = {}; f = None
+        for op, pos in c["ops"]:
+            if op == "P":
+                oid = int(toks[i + 1]); i += 2
+                if i < len(toks) and toks[i] == "OOB":
+                    i += 1; f = f or "index_in_range (history)"
+                else:
+                    if c["kind"] == "G3H":       # one object per voxel: the newcomer replaces the object stored in its voxel
+                        v = tuple(min(int((pos[k] - c["lo"][k]) // c["s"]), 10 ** 9) for k in range(3))
+                        for q_, vq in list(voxel_of.items()):
+                            if vq == v:
+                                placed.pop(q_, None); voxel_of.pop(q_, None)
+                        voxel_of[oid] = v
+                    placed[oid] = pos
+            else:
+                i += 1; got = []
+                while toks[i] != ";":
+                    got.append(toks[i]); i += 1
+                i += 1
+                if got == ["OOB"]:
+                    f = f or "index_in_range (history query)"; continue
+                got = [int(x) for x in got]
+                if len(set(got)) != len(got):
+                    f = f or "neighbourhood returns an object twice (history)"
+                if c["kind"] == "G4H" and not set(got) <= set(placed):
+                    f = f or "neighbourhood returns an object that is not stored (history)"
+                if c["kind"] == "G4H":
+                    for oid, p in placed.items():
+                        d = math.sqrt(sum((p[k] - pos[k]) ** 2 for k in range(3)))
+                        if d <= c["s"] * (1 - 1e-9) and oid not in got:
+                            f = f or "neighbourhood_complete (history: object %d placed before the query, at %.3g voxel sizes, is missed)" % (oid, d / c["s"])
+        if f:
+            hfails.append((f, c))
+    ck.notes["histories_of_interleaved_insertions_and_queries"] = nh
+    ck.cov["evaluations"] = len(cases) + nh
     ck.cov["distinct_nontrivial"] = nontriv
     ck.cov["traces_validated_against_impl"] = len(cases) - len(broken)
     ck.notes["kinds"] = dict(G4=sum(1 for c in cases if c["kind"] == "G4"), G3=sum(1 for c in cases if c["kind"] == "G3"))
@@ -244,6 +301,8 @@ def run(ck):
     for i, f in fails[:3]:
         ck.report(dict(input=lines[i], implementation=iout[i], model=mout[i]), oracle=f.split(" (")[0],
                   what="grid violates " + f, key="grid:" + f.split(" (")[0])
+    for f, c in hfails[:2]:
+        ck.report(dict(input=c["line"], kind=c["kind"]), oracle=f.split(" (")[0], what="grid violates " + f, key="grid:history:" + f.split(" (")[0])
     if broken and not ck.violations:
         i = broken[0]
         ck.report(dict(input=lines[i], implementation=iout[i], model=mout[i], n_disagreements=len(broken)),
